@@ -62,6 +62,7 @@ def emit_ops(cb, ops, fresh=None):
 def build_phase(ph, as_list=True, fresh=None):
     """Returns (builder, ExecutionPhase)."""
     from dagrt.language import CodeBuilder, ExecutionPhase
+    T.set_kw_order(ph)
     with CodeBuilder(name=ph["name"]) as cb:
         emit_ops(cb, ph["body"], fresh)
     if as_list:
@@ -105,7 +106,7 @@ def norm(v):
         return ("vec", tuple(norm(x) for x in v.tolist()))
     if isinstance(v, (list, tuple)):
         return ("vec", tuple(norm(x) for x in v))
-    if isinstance(v, complex):
+    if isinstance(v, (complex, np.complexfloating)):
         return ("complex", norm(v.real), norm(v.imag))
     return ("other", repr(v))
 
